@@ -38,6 +38,9 @@ type ServerCfg struct {
 	// depend on whether a later option replaces or extends an earlier one.
 	Params2 map[string]string `json:"params2,omitempty"`
 	Version string            `json:"version,omitempty"`
+	// MemoParser: the parser keeps what it has parsed and hands the same
+	// PreparedStatements value out again for the same query text (per connection)
+	MemoParser bool `json:"memo_parser,omitempty"`
 	// ValCtxDone: whenever the validator does not accept, the context it returns
 	// has already ended (the common `ctx, cancel := context.WithTimeout(...);
 	// defer cancel()` shape of a validator that looks the account up remotely)
